@@ -1,17 +1,289 @@
 /-
-  C12 -- write_view then read_image reproduces the view (BMP / PNM / TARGA, byte level)
+  C12 -- write_view then read_image reproduces the view (BMP / PNM / TARGA, byte level).
+
+  Model: GilVerif/Model/Codec.lean (encoders written from the GIL writers, decoders from the readers).
+  Every theorem is for ALL widths, heights and pixel contents; the header field ranges are explicit
+  hypotheses.  Helper lemmas: GilVerif/Lemmas/Codec.lean.
 -/
 import GilVerif.Model.C12
+import GilVerif.Lemmas.Codec
 
 namespace GilVerif.Props.C12
 open GilVerif.Codec GilVerif.Model.C12
 
-/-- the byte manipulators of io/bit_operations.hpp used on both the write and the read side are involutions -/
+/-! ### bit operations (io/bit_operations.hpp) -/
+
+/-- the byte manipulators used on the write and the read side are involutions -/
 theorem C12_bitops_involutive (n : Nat) (h : n < 256) :
     mirrorByte (mirrorByte (UInt8.ofNat n)) = UInt8.ofNat n ∧
     negateByte (negateByte (UInt8.ofNat n)) = UInt8.ofNat n ∧
     swapHalfByte (swapHalfByte (UInt8.ofNat n)) = UInt8.ofNat n := by
   revert n
   decide +kernel
+
+/-! ### BMP -/
+
+private theorem bmp_row {α} {f : PixFmt α} (hf : f.Lawful) (w : Nat) (r : List α) (hr : r.length = w) :
+    sliceRow 0 w (decRow f w (padTo (bmpSpn w f.size) (encRow f r))) = r := by
+  subst hr
+  rw [padTo, decRow_encRow hf, sliceRow_full]
+
+/-- BMP: for every width, height and content, `read_image (write_view img) = img` (rgb8 via `bgr8`, rgba8 via `bgra8`).
+    Hypotheses = what the 32-bit header fields and the reader's `int` pitch arithmetic can hold. -/
+theorem C12_bmp_roundtrip {α} (f : PixFmt α) (hf : f.Lawful) (hsz : f.size = 3 ∨ f.size = 4)
+    (img : Img α) (wf : img.WF) (hw : img.w * 4 + 3 < 2147483648) (hh1 : 1 ≤ img.h) (hh : img.h < 2147483648) :
+    decodeBmp f (encodeBmp f img) Settings.full = some img := by
+  obtain ⟨w, h, rows⟩ := img
+  obtain ⟨hlen, hrow⟩ := wf
+  simp only at hlen hrow hw hh1 hh
+  have hspn : ∀ r ∈ rows, (encRow f r).length ≤ bmpSpn w f.size := by
+    intro r hr; rw [length_encRow hf, hrow r hr]; unfold bmpSpn; omega
+  have hpitch : bmpPitch ⟨54, 40, (w : Int), (h : Int), false, f.size * 8, 0, 0⟩ = bmpSpn w f.size := by
+    simp only [bmpPitch, bmpSpn, Int.toNat_natCast]
+    rcases hsz with e | e <;> simp [e]
+  unfold decodeBmp encodeBmp
+  rw [bmpReadHeader_bmpHeader w h f.size _ (by omega) hh (by omega)]
+  have hb : f.size * 8 = 24 ∨ f.size * 8 = 32 := by omega
+  simp only [hb, if_true]
+  congr 1
+  simp only [bmpReadData, hpitch, Settings.full, Settings.dimX, Settings.dimY, if_true, Int.toNat_natCast, Nat.add_zero]
+  congr 1
+  -- the rows: block `h-1-y` of the body is the padded encoding of row `y`
+  subst hlen
+  apply map_range_eq
+  intro i hi
+  have hblocks : ∀ b ∈ rows.reverse.map (fun r => padTo (bmpSpn w f.size) (encRow f r)), b.length = bmpSpn w f.size := by
+    intro b hb
+    obtain ⟨r, hr, rfl⟩ := List.mem_map.1 hb
+    exact length_padTo (hspn r (List.mem_reverse.1 hr))
+  have hk : rows.length - 1 - i < (rows.reverse.map (fun r => padTo (bmpSpn w f.size) (encRow f r))).length := by
+    simp; omega
+  have hpos : ((rows.length : Int) > 0) := by omega
+  simp only [bmpGetOffset, hpos, if_true, Int.toNat_natCast, readAt, bmpBody]
+  have := readAt_block (bmpSpn w f.size) (bmpHeader w rows.length f.size) _ (rows.length - 1 - i) hk hblocks
+  rw [length_bmpHeader] at this
+  rw [this]
+  simp only [List.getElem_map, List.getElem_reverse]
+  have hidx : rows.length - 1 - (rows.length - 1 - i) = i := by omega
+  simp only [hidx]
+  exact bmp_row hf w rows[i] (hrow _ (List.getElem_mem hi))
+
+theorem C12_bmp_roundtrip_rgb8 (img : Img Rgb8) (wf : img.WF) (hw : img.w * 4 + 3 < 2147483648) (hh1 : 1 ≤ img.h)
+    (hh : img.h < 2147483648) : decodeBmp bgr8 (encodeBmp bgr8 img) Settings.full = some img :=
+  C12_bmp_roundtrip bgr8 bgr8_lawful (Or.inl rfl) img wf hw hh1 hh
+
+theorem C12_bmp_roundtrip_rgba8 (img : Img Rgba8) (wf : img.WF) (hw : img.w * 4 + 3 < 2147483648) (hh1 : 1 ≤ img.h)
+    (hh : img.h < 2147483648) : decodeBmp bgra8 (encodeBmp bgra8 img) Settings.full = some img :=
+  C12_bmp_roundtrip bgra8 bgra8_lawful (Or.inr rfl) img wf hw hh1 hh
+
+/-- the hypotheses are satisfiable: a 3×2 rgb8 image (width residue 1 mod 4: 3 bytes of padding per row) -/
+example : decodeBmp bgr8 (encodeBmp bgr8 ⟨3, 2, [[⟨1,2,3⟩,⟨4,5,6⟩,⟨7,8,9⟩],[⟨10,11,12⟩,⟨13,14,15⟩,⟨16,17,18⟩]]⟩) Settings.full
+    = some ⟨3, 2, [[⟨1,2,3⟩,⟨4,5,6⟩,⟨7,8,9⟩],[⟨10,11,12⟩,⟨13,14,15⟩,⟨16,17,18⟩]]⟩ := by decide
+
+/-! ### TARGA -/
+
+/-- TARGA: for every width, height (16-bit header fields) and content, `read_image (write_view img) = img` -/
+theorem C12_targa_roundtrip {α} (f : PixFmt α) (hf : f.Lawful) (hsz : f.size = 3 ∨ f.size = 4)
+    (img : Img α) (wf : img.WF) (hw1 : 1 ≤ img.w) (hw : img.w < 65536) (hh1 : 1 ≤ img.h) (hh : img.h < 65536) :
+    decodeTga f (encodeTga f img) Settings.full = some img := by
+  obtain ⟨w, h, rows⟩ := img
+  obtain ⟨hlen, hrow⟩ := wf
+  simp only at hlen hrow hw1 hw hh1 hh
+  unfold decodeTga encodeTga
+  rw [tgaReadHeader_tgaHeader w h f.size _ hw1 hw hh1 hh hsz]
+  simp only [ne_eq, not_true, if_false, Nat.reduceEqDiff, true_or, if_true]
+  congr 1
+  have hdiv : f.size * 8 / 8 = f.size := by omega
+  simp only [tgaReadRaw, Settings.full, Settings.dimX, Settings.dimY, if_true, Bool.false_eq_true, if_false, hdiv,
+    Nat.sub_zero, Nat.sub_self, Nat.zero_mul, Nat.add_zero]
+  congr 1
+  subst hlen
+  have hblocks : ∀ b ∈ rows.reverse.map (encRow f), b.length = w * f.size := by
+    intro b hb
+    obtain ⟨r, hr, rfl⟩ := List.mem_map.1 hb
+    rw [length_encRow hf, hrow r (List.mem_reverse.1 hr)]
+  -- the k-th stored scanline is row `h-1-k`
+  have hstored : (List.range rows.length).map (fun k =>
+      sliceRow 0 w (decRow f w (readAt (tgaHeader w rows.length f.size ++ (rows.reverse.map (encRow f)).flatten)
+        (18 + k * (w * f.size)) (w * f.size)))) = rows.reverse := by
+    apply map_range_eq' rows.reverse rows.length (by simp)
+    intro i hi
+    have hk : i < (rows.reverse.map (encRow f)).length := by simpa using hi
+    have hb := readAt_block (w * f.size) (tgaHeader w rows.length f.size) _ i hk hblocks
+    rw [length_tgaHeader] at hb
+    simp only [readAt, hb, List.getElem_map]
+    have hr : (rows.reverse[i]'(by simpa using hi)).length = w := hrow _ (List.mem_reverse.1 (List.getElem_mem _))
+    have := decRow_encRow hf (rows.reverse[i]'(by simpa using hi)) []
+    rw [List.append_nil, hr] at this
+    rw [this, ← hr, sliceRow_full]
+  rw [hstored, List.reverse_reverse]
+
+theorem C12_targa_roundtrip_rgb8 (img : Img Rgb8) (wf : img.WF) (hw1 : 1 ≤ img.w) (hw : img.w < 65536) (hh1 : 1 ≤ img.h)
+    (hh : img.h < 65536) : decodeTga bgr8 (encodeTga bgr8 img) Settings.full = some img :=
+  C12_targa_roundtrip bgr8 bgr8_lawful (Or.inl rfl) img wf hw1 hw hh1 hh
+
+theorem C12_targa_roundtrip_rgba8 (img : Img Rgba8) (wf : img.WF) (hw1 : 1 ≤ img.w) (hw : img.w < 65536) (hh1 : 1 ≤ img.h)
+    (hh : img.h < 65536) : decodeTga bgra8 (encodeTga bgra8 img) Settings.full = some img :=
+  C12_targa_roundtrip bgra8 bgra8_lawful (Or.inr rfl) img wf hw1 hw hh1 hh
+
+example : decodeTga bgra8 (encodeTga bgra8 ⟨2, 2, [[⟨1,2,3,4⟩,⟨5,6,7,8⟩],[⟨9,10,11,12⟩,⟨13,14,15,16⟩]]⟩) Settings.full
+    = some ⟨2, 2, [[⟨1,2,3,4⟩,⟨5,6,7,8⟩],[⟨9,10,11,12⟩,⟨13,14,15,16⟩]]⟩ := by decide
+
+/-! ### PNM (binary P5 / P6) -/
+
+/-- PNM binary gray8 (P5, `f = gray8`) and rgb8 (P6, `f = rgb8`): for every width, height and content
+    `read_image (write_view img) = img`.  `PnmIntOk` is the reader's decimal overflow guard (every value up to 214748364 passes). -/
+theorem C12_pnm_roundtrip {α} (f : PixFmt α) (hf : f.Lawful) (t : Nat) (ht : (t = 5 ∧ f.size = 1) ∨ (t = 6 ∧ f.size = 3))
+    (img : Img α) (wf : img.WF) (hw : PnmIntOk img.w) (hh : PnmIntOk img.h) :
+    decodePnm f t (encodePnm f t img) Settings.full = some img := by
+  obtain ⟨w, h, rows⟩ := img
+  obtain ⟨hlen, hrow⟩ := wf
+  simp only at hlen hrow hw hh
+  unfold decodePnm encodePnm
+  rw [pnmReadHeader_pnmHeader t w h _ (by omega) hw hh]
+  simp only [if_true]
+  congr 1
+  have hsl : pnmScanline t w = w * f.size := by
+    rcases ht with ⟨rfl, e⟩ | ⟨rfl, e⟩ <;> simp [pnmScanline, e]
+  simp only [pnmReadBin, hsl, Settings.full, Settings.dimX, Settings.dimY, if_true, Nat.zero_add]
+  congr 1
+  subst hlen
+  have hblocks : ∀ b ∈ rows.map (encRow f), b.length = w * f.size := by
+    intro b hb
+    obtain ⟨r, hr, rfl⟩ := List.mem_map.1 hb
+    rw [length_encRow hf, hrow r hr]
+  apply map_range_eq
+  intro i hi
+  have hk : i < (rows.map (encRow f)).length := by simpa using hi
+  have hb := readAt_block (w * f.size) ([] : Bytes) _ i hk hblocks
+  simp only [List.nil_append, List.length_nil, Nat.zero_add] at hb
+  simp only [readAt, hb, List.getElem_map]
+  have hr : rows[i].length = w := hrow _ (List.getElem_mem _)
+  have := decRow_encRow hf rows[i] []
+  rw [List.append_nil, hr] at this
+  rw [this, ← hr, sliceRow_full]
+
+theorem C12_pnm_roundtrip_gray8 (img : Img UInt8) (wf : img.WF) (hw : PnmIntOk img.w) (hh : PnmIntOk img.h) :
+    decodePnm gray8 5 (encodePnm gray8 5 img) Settings.full = some img :=
+  C12_pnm_roundtrip gray8 gray8_lawful 5 (Or.inl ⟨rfl, rfl⟩) img wf hw hh
+
+theorem C12_pnm_roundtrip_rgb8 (img : Img Rgb8) (wf : img.WF) (hw : PnmIntOk img.w) (hh : PnmIntOk img.h) :
+    decodePnm rgb8 6 (encodePnm rgb8 6 img) Settings.full = some img :=
+  C12_pnm_roundtrip rgb8 rgb8_lawful 6 (Or.inr ⟨rfl, rfl⟩) img wf hw hh
+
+example : PnmIntOk 2147483000 ∧ ¬ PnmIntOk 2147483639 := by unfold PnmIntOk; omega
+example : decodePnm rgb8 6 (encodePnm rgb8 6 ⟨12, 1, [[⟨1,2,3⟩,⟨4,5,6⟩,⟨7,8,9⟩,⟨1,2,3⟩,⟨4,5,6⟩,⟨7,8,9⟩,⟨1,2,3⟩,⟨4,5,6⟩,⟨7,8,9⟩,⟨1,2,3⟩,⟨4,5,6⟩,⟨7,8,9⟩]]⟩) Settings.full
+    = some ⟨12, 1, [[⟨1,2,3⟩,⟨4,5,6⟩,⟨7,8,9⟩,⟨1,2,3⟩,⟨4,5,6⟩,⟨7,8,9⟩,⟨1,2,3⟩,⟨4,5,6⟩,⟨7,8,9⟩,⟨1,2,3⟩,⟨4,5,6⟩,⟨7,8,9⟩]]⟩ := by decide
+
+/-! ### PNM mono (P4, gray1_image_t) -- the property FAILS on the current tree
+
+-- OPEN (not proven; false on the current tree, see the two witnesses below):
+--   theorem C12_pnm_mono_roundtrip (img : Img Bool) (wf : img.WF) (hw : PnmIntOk img.w) (hh : PnmIntOk img.h) :
+--       ∃ file, encodePnmMono img = some file ∧ decodePnmMono file Settings.full = some img
+-/
+
+/-- writer defect: for every width that is not a multiple of 8 the gray1 writer overruns its row buffer -/
+theorem C12_pnm_mono_write_ub (img : Img Bool) (h : img.w % 8 ≠ 0) : rtPnm4 img = Outcome.ub := by
+  simp [rtPnm4, encodePnmMono, h]
+
+theorem C12_pnm_mono_write_ub_witness : rtPnm4 ⟨1, 1, [[true]]⟩ = Outcome.ub := by decide
+
+/-- reader defect: the 8×1 image 0,0,1,0,1,1,1,0 is written as the (correct) P4 byte 0xd1 and read back as 0,1,0,0,0,1,1,1 -/
+theorem C12_pnm_mono_read_witness :
+    rtPnm4 ⟨8, 1, [[false, false, true, false, true, true, true, false]]⟩ =
+      Outcome.done [80, 52, 32, 56, 32, 49, 32, 0xd1] (some ⟨8, 1, [[false, true, false, false, false, true, true, true]]⟩) := by
+  decide
+
+private theorem pnm_mono_file (rowEnc : List Bool → Bytes) (rowDec : Bytes → List Bool) (g : List Bool → List Bool)
+    (w h : Nat) (rows : List (List Bool)) (hlen : rows.length = h) (hw : PnmIntOk w) (hh : PnmIntOk h)
+    (hsl : ∀ r ∈ rows, (rowEnc r).length = (w + 7) / 8)
+    (hrt : ∀ r ∈ rows, sliceRow 0 w (rowDec (rowEnc r)) = g r) :
+    decodePnmMonoWith rowDec (pnmHeader 4 w h ++ (rows.map rowEnc).flatten) Settings.full = some ⟨w, h, rows.map g⟩ := by
+  unfold decodePnmMonoWith
+  rw [pnmReadHeader_pnmHeader 4 w h _ (Or.inl rfl) hw hh]
+  simp only [if_true, pnmScanline, Settings.full, Settings.dimX, Settings.dimY, Nat.zero_add]
+  congr 2
+  subst hlen
+  have hblocks : ∀ b ∈ rows.map rowEnc, b.length = (w + 7) / 8 := by
+    intro b hb
+    obtain ⟨r, hr, rfl⟩ := List.mem_map.1 hb
+    exact hsl r hr
+  apply map_range_eq' (rows.map g) rows.length (by simp)
+  intro i hi
+  have hi' : i < rows.length := by simpa using hi
+  have hk : i < (rows.map rowEnc).length := by simpa using hi'
+  have hb := readAt_block ((w + 7) / 8) ([] : Bytes) _ i hk hblocks
+  simp only [List.nil_append, List.length_nil, Nat.zero_add] at hb
+  simp only [readAt, hb, List.getElem_map]
+  have hmem : rows[i] ∈ rows := List.getElem_mem _
+  rw [padTo, hsl _ hmem, Nat.sub_self, List.replicate_zero, List.append_nil]
+  exact hrt _ hmem
+
+/-- what DOES hold on the current tree (width a multiple of 8, every height, every content): the file is written, dimensions
+    survive, and every group of 8 pixels comes back with each of its halves reversed (`monoScramble`) -/
+theorem C12_pnm_mono_roundtrip_partial (img : Img Bool) (wf : img.WF) (h8 : img.w % 8 = 0) (hw : PnmIntOk img.w) (hh : PnmIntOk img.h) :
+    rtPnm4 img = Outcome.done (pnmHeader 4 img.w img.h ++ (img.rows.map (pnmMonoRowEnc img.w)).flatten)
+      (some ⟨img.w, img.h, img.rows.map (fun r => (chunks8 (img.w / 8) r).flatMap monoScramble)⟩) := by
+  obtain ⟨w, h, rows⟩ := img
+  obtain ⟨hlen, hrow⟩ := wf
+  simp only at hlen hrow hw hh h8
+  have h8' : ¬ (w % 8 ≠ 0) := by omega
+  simp only [rtPnm4, encodePnmMono, h8', if_false, decodePnmMono]
+  congr 1
+  apply pnm_mono_file (pnmMonoRowEnc w) pnmMonoRowDec _ w h rows hlen hw hh
+  · intro r hr
+    have := chunks8_spec (w / 8) r (by rw [hrow r hr]; omega)
+    simp [pnmMonoRowEnc, this.2.2]; omega
+  · intro r hr
+    obtain ⟨c1, c2, c3⟩ := chunks8_spec (w / 8) r (by rw [hrow r hr]; omega)
+    have e : pnmMonoRowDec (pnmMonoRowEnc w r) = (chunks8 (w / 8) r).flatMap monoScramble := by
+      simp only [pnmMonoRowDec, pnmMonoRowEnc, List.flatMap_map]
+      apply flatMap_chunks_congr
+      intro c hc
+      obtain ⟨x0, x1, x2, x3, x4, x5, x6, x7, rfl⟩ := len8 (c1 c hc)
+      exact mono_chunk_current x0 x1 x2 x3 x4 x5 x6 x7
+    rw [e]
+    have hl : ((chunks8 (w / 8) r).flatMap monoScramble).length = w := by
+      have : ∀ cs : List (List Bool), (∀ c ∈ cs, c.length = 8) → (cs.flatMap monoScramble).length = 8 * cs.length := by
+        intro cs
+        induction cs with
+        | nil => simp
+        | cons c cs ih =>
+          intro hc
+          obtain ⟨x0, x1, x2, x3, x4, x5, x6, x7, rfl⟩ := len8 (hc c (by simp))
+          simp only [List.flatMap_cons, List.length_append, List.length_cons, ih (fun x hx => hc x (by simp [hx])), monoScramble]
+          simp; omega
+      rw [this _ c1, c3]; omega
+    generalize (chunks8 (w / 8) r).flatMap monoScramble = out at hl
+    subst hl
+    exact sliceRow_full out
+
+/-- with the proposed fix (row buffer of (w+7)/8 bytes, reader mirrors instead of swapping half bytes) the round trip holds for
+    EVERY width (all residues mod 8), height and content, whatever the unused bits of the last byte hold -/
+theorem C12_pnm_mono_roundtrip_proposed_fix (pad : List Bool → List Bool) (hpad : ∀ r, 7 ≤ (pad r).length)
+    (img : Img Bool) (wf : img.WF) (hw : PnmIntOk img.w) (hh : PnmIntOk img.h) :
+    decodePnmMonoFixed (encodePnmMonoFixed pad img) Settings.full = some img := by
+  obtain ⟨w, h, rows⟩ := img
+  obtain ⟨hlen, hrow⟩ := wf
+  simp only at hlen hrow hw hh
+  have key : ∀ r ∈ rows, (pnmMonoRowEncFixed w (pad r) r).length = (w + 7) / 8 ∧
+      sliceRow 0 w (pnmMonoRowDecFixed (pnmMonoRowEncFixed w (pad r) r)) = r := by
+    intro r hr
+    have hp := hpad r
+    obtain ⟨c1, c2, c3⟩ := chunks8_spec ((w + 7) / 8) (r ++ pad r) (by simp [hrow r hr]; omega)
+    refine ⟨by simp [pnmMonoRowEncFixed, c3], ?_⟩
+    have e : pnmMonoRowDecFixed (pnmMonoRowEncFixed w (pad r) r) = (chunks8 ((w + 7) / 8) (r ++ pad r)).flatMap id := by
+      simp only [pnmMonoRowDecFixed, pnmMonoRowEncFixed, List.flatMap_map]
+      apply flatMap_chunks_congr
+      intro c hc
+      obtain ⟨x0, x1, x2, x3, x4, x5, x6, x7, rfl⟩ := len8 (c1 c hc)
+      exact mono_chunk_fixed x0 x1 x2 x3 x4 x5 x6 x7
+    rw [e, List.flatMap_id, c2, sliceRow, List.drop_zero, List.take_take,
+      Nat.min_eq_left (by omega), List.take_left' (hrow r hr)]
+  have := pnm_mono_file (fun r => pnmMonoRowEncFixed w (pad r) r) pnmMonoRowDecFixed id w h rows hlen hw hh
+    (fun r hr => (key r hr).1) (fun r hr => (key r hr).2)
+  simpa [decodePnmMonoFixed, encodePnmMonoFixed] using this
+
+example : (⟨16, 1, [[true, false, true, true, false, false, false, true, true, true, true, false, true, false, false, false]]⟩ : Img Bool).w % 8 = 0 := rfl
 
 end GilVerif.Props.C12
